@@ -86,7 +86,8 @@ def r1_extent_check(ctx):
         ok = not missing
         ctx.check(ok, f.qual + f"#{axis}", f"'{axis}' check depends on start and stop of both ranges" if ok else f"'{axis}' check never reads {missing}: it cannot compare extents (e.g. [0,5] vs [2,5] is accepted)", where=f, node=gd.test, facts={"reads": sorted(r)})
         if axis == "time":
-            ts = norm(gd.test)
+            # everything known to hold where it raises: its own test and the enclosing ones
+            ts = " and ".join(norm(t_) for t_, pol_ in enclosing_tests(gd.body[0], rejections=True) if pol_)
             ok3 = f"isinstance({a}, FitRange3D)" in ts and f"isinstance({b}, FitRange3D)" in ts
             ctx.check(ok3, f.qual + "#time-3d", "time compared when both ranges are 3-D" if ok3 else "time axis comparison not restricted to two 3-D ranges", where=f, node=gd.test)
     # visible length comparison inside the helper
@@ -155,8 +156,17 @@ def r2_upper_bound(ctx):
     for cls, axes in (("FitRange2D", {"row": "rows", "col": "cols"}), ("FitRange3D", {"row": "rows", "col": "cols", "time": "readout_times"})):
         f = ctx.func(f"{U}:{cls}.check")
         gs = raising_ifs(f.node)
+        # the 3-D check may leave row / col to the 2-D check of a range built from its own row / col:
+        #   FitRange2D(row=self.row, col=self.col).check(rows=rows, cols=cols)   (unconditional)
+        delegated = set()
+        for c_ in calls_in(f.node):
+            if cls == "FitRange3D" and isinstance(c_.func, ast.Attribute) and c_.func.attr == "check" and isinstance(c_.func.value, ast.Call) and call_name(c_.func.value) == "FitRange2D" and not enclosing_tests(c_, rejections=True):
+                mk = c_.func.value
+                for ax2, size2 in (("row", "rows"), ("col", "cols")):
+                    if norm(arg_or_kw(mk, 0 if ax2 == "row" else 1, ax2)) == f"self.{ax2}" and norm(arg_or_kw(c_, 0 if ax2 == "row" else 1, size2)) == size2:
+                        delegated.add(ax2)
         for ax, size in axes.items():
-            ok = any(norm(gd.test) in (f"not self.{ax}.stop <= {size}", f"self.{ax}.stop > {size}") for gd in gs)
+            ok = any(norm(gd.test) in (f"not self.{ax}.stop <= {size}", f"self.{ax}.stop > {size}") for gd in gs) or ax in delegated
             ctx.check(ok, f.qual + f"#{ax}", f"{ax}.stop <= {size} enforced" if ok else f"{ax}.stop is not compared with {size}", where=f, node=f.node)
     init = ctx.func(f"{FD}.__init__")
     calls = stmt_calls(init, ctx.R, {f"{U}:check_fit_ranges"})
